@@ -6,7 +6,10 @@ Task "mcq" (all three samplers, small sample counts, every parameter placement, 
         s_0 = x0, s_{k+1} = step(s_k) starting at index nburnout or nburnout+1 (both readings of "nsamples samples after
         nburnout burn-in steps"; mh itself uses the second), bit-for-bit (the step is ours and is applied to the same values);
         the reading must not depend on nburnout: a second call with nburnout+1 must move the window by exactly one state;
-        custom_step receives exactly (x, *pparams);
+        custom_step receives exactly (x, *pparams); the step delivers its (bit-identical) values in one of the ways a caller's
+        step may: a fresh tensor, its argument advanced in place and returned, one internal state tensor overwritten and
+        returned at every call, a contiguous or a strided window of a larger internal buffer — the samples are the values
+        each call returned at the time, whatever the step does to that memory afterwards;
       - _dummy1d: the n Gauss-Legendre nodes mapped through tan from [atan lb, atan ub] (numpy's leggauss as reference);
       - mh: exactly nburnout+nsamples fresh proposals are evaluated by log p, the samples follow the Metropolis chain
         structure (sample_k is sample_{k-1} or the k-th sampling proposal; an uphill proposal is always accepted; the state
@@ -14,7 +17,12 @@ Task "mcq" (all three samplers, small sample counts, every parameter placement, 
         proposal has superseded);
   * value = sum_i w_i f(x_i) on the recorded samples, w_i = 1/nsamples (mh, mhcustom) or the normalised quadrature weights
     (1+x_i^2) wGL_i p(x_i) (_dummy1d); tuple outputs component-wise; a constant component returns the constant; the component
-    2*f_1 - 3*f_2 returns 2*E f_1 - 3*E f_2;
+    2*f_1 - 3*f_2 returns 2*E f_1 - 3*E f_2; f and log p may hand their results out as views of one internal buffer that their
+    next call overwrites (value and graph of each call are those of the plain function; the references always use the plain
+    functions): the mean and both estimators use the value each call returned at the time (not for log p of `mh`, see
+    MH_NEEDS_FRESH_LOGP);
+  * the x0 tensor handed over by the caller is bitwise unchanged after the forward call and after each backward pass, unless
+    the caller's own step advances its argument in place;
   * gradients: reference is the DiCE-style self-normalised surrogate  S = sum_i w_i r_i F_i / sum_i w_i r_i,
     r_i = exp(log p_i - stopgrad(log p_i)), F_i = <W, f(x_i)>, evaluated in plain torch on the recorded samples.
     With E_r[h] = sum w r h / sum w r one has d E_r[h] = E_r[dh] + Cov_r(h, dlog p) for every h, hence at r = 1
@@ -46,12 +54,14 @@ from pbt import gen
 from pbt.harness import Task, ok, violation, discard, xt_call
 
 PID = "C16"
-RULE = ("mcq: sampler in {mhcustom with a deterministic caller step (shift / negate / affine contraction / roll), _dummy1d (n<=12, "
+RULE = ("mcq: sampler in {mhcustom with a deterministic caller step (shift / negate / affine contraction / roll) x how the step delivers "
+        "its result {fresh tensor, argument advanced in place, one internal buffer, contiguous / strided view of a larger buffer}, _dummy1d (n<=12, "
         "finite / half-infinite / infinite bounds), mh (seeded; method given or defaulted)} x nsamples 1..8, nburnout 0..6 (drawn "
         "independently, so mostly unequal) x x0 of shape (d,), () or (d,1) x f output {scalar, vector, matrix, tuple / list incl. a constant and a "
         "linear-combination component, constant} x log p output shape {(), (1,)} x function kind of f and of log p from pbt/gen.py (explicit / object-held / derived "
         "tensors, optional unused tensor, non-tensor parameter) x one leaf shared between f and log p x which leaves require grad x "
-        "bck_options x order 1/2.  mhstat: mh on Gaussian targets, d<=2 (axis ratio <=1.5), N in 1500..4000 (thorough 12000), step 0.8..4 sigma_min, "
+        "bck_options x order 1/2 x f / log p returning {fresh tensors, one reused internal buffer, a window of a larger reused buffer} (log p of mh: fresh only).  "
+        "sameobj: f and log p two methods of one object, mhcustom with the same step-delivery styles.  mhstat: mh on Gaussian targets, d<=2 (axis ratio <=1.5), N in 1500..4000 (thorough 12000), step 0.8..4 sigma_min, "
         "nburnout in {0,1,7,50,200}, start within one sigma of the mean. "
         "Non-trivial = at least two different samples were recorded and (mcq) the integrand is not constant; distinct by canonical case.")
 ASSUMPTIONS = [
@@ -63,6 +73,12 @@ ASSUMPTIONS = [
     "Cov_r(h, dlog p); first and second order checked during development against central finite differences of the _dummy1d value "
     "recomputed at perturbed parameters: agreement 3e-10 / 2e-7 = finite-difference accuracy)",
     "_dummy1d is called as the repository's own test calls it: 0-d x0, options nsamples/lb/ub",
+    "callables that reuse memory: the values a step / f / log p returns are those of the plain map at the time of the call; what the "
+    "callable does to that memory at later calls must not change samples, value or gradients (mcquad consumes f and log p at once, mhcustom "
+    "copies each state).  Not generated: log p of `mh` returning a reused buffer (mh keeps the returned tensor for the current state and "
+    "would compare it with itself; read as outside the domain of 'pure functions', flag MH_NEEDS_FRESH_LOGP, replay in "
+    "regress/C16/mh_logp_returns_reused_buffer.json.pending)",
+    "x0 is an input: bitwise unchanged after forward / backward unless the caller's own step mutates its argument (then unspecified)",
     "mh: proposals are continuous, so two proposals never coincide bit-for-bit (probability ~ 2^-50 per pair)",
     "mhstat moment bands use TAU=50 >= 2x the integrated autocorrelation time measured offline for the generated range; the "
     "calibration and proposal-scale bounds are rigorous (Azuma-Hoeffding, Laurent-Massart), each with false-alarm probability <= 2e-10",
@@ -78,6 +94,13 @@ WALL = {"quick": 300, "thorough": 2400}
 # another supplied one or a tensor is supplied twice (found by C09/C16, repair owned by C09).  While True, the generator
 # keeps the tensors supplied to one function independent (see `independent_spec`); set to False once the repair has landed.
 AVOID_DERIVED_PARAMS = False
+
+# `mh` keeps the tensor log p returned for the current state (`logpx = logpnext`) and compares the next proposal with it;
+# a log p that hands out the same internal buffer at every call makes that comparison one of a tensor with itself (every
+# proposal is accepted).  Read as outside the domain ("pure functions": a result that changes after it was returned is not
+# determined by the inputs of its call), so `mh` is generated with a log p returning fresh tensors only; f (consumed at
+# once by the weighted sum) and log p of mhcustom / _dummy1d / the backward pass (consumed at once) are generated aliased.
+MH_NEEDS_FRESH_LOGP = True
 
 DT = torch.float64
 EPS = 2.220446049250313e-16
@@ -142,6 +165,82 @@ def make_step(step, d):
     return pure
 
 
+STEP_STYLES = ("fresh", "inplace_arg", "buffer", "view", "strided_view")
+RET_STYLES = ("fresh", "buffer", "view")
+
+
+class StyledStep:
+    """the map `pure` delivered the way a caller's sampler step may deliver it (the values are those of `pure`, bit for bit):
+      fresh        a new tensor per call
+      inplace_arg  the argument is advanced in place and returned (the first argument the sampler hands over may be x0 itself)
+      buffer       one internal state tensor, overwritten and returned at every call
+      view         a contiguous window (offset 2) of a larger internal buffer, overwritten and returned at every call
+      strided_view every second element of a larger internal buffer (non-contiguous), overwritten and returned at every call"""
+
+    def __init__(self, pure, style):
+        self.pure, self.style, self.store = pure, style, None
+
+    def __call__(self, x):
+        new = self.pure(x)
+        if self.style == "fresh":
+            return new
+        if self.style == "inplace_arg":
+            x.copy_(new)
+            return x
+        n = new.numel()
+        if self.store is None:
+            self.store = torch.full((2 * n + 5,), float("nan"), dtype=new.dtype)
+        if self.style == "buffer":
+            out = self.store[:n].view(new.shape)
+        elif self.style == "view":
+            out = self.store[2:2 + n].view(new.shape)
+        else:
+            out = self.store[1:1 + 2 * n:2].view(new.shape)
+        out.copy_(new)
+        return out
+
+
+class AliasedReturn:
+    """hands the output of a function out as view(s) of ONE internal buffer that the next call overwrites (style 'buffer': the
+    buffer from its start; 'view': a window at offset 3 of a larger one); tuple / list outputs: consecutive windows.  The buffer
+    is detached from the previous call's graph before it is written, the copy into it is differentiable, so the value and
+    the graph of each call are those of the plain function at the time of the call."""
+
+    def __init__(self, style):
+        self.style, self.store = style, None
+
+    def __call__(self, out):
+        if self.style == "fresh":
+            return out
+        comps = list(out) if isinstance(out, (tuple, list)) else [out]
+        n = sum(c.numel() for c in comps)
+        off = 0 if self.style == "buffer" else 3
+        if self.store is None or self.store.numel() != n + 2 * off:
+            self.store = torch.full((n + 2 * off,), float("nan"), dtype=comps[0].dtype)
+        self.store = self.store.detach()
+        views = []
+        for c in comps:
+            v = self.store[off:off + c.numel()].view(c.shape)
+            v.copy_(c)
+            views.append(v)
+            off += c.numel()
+        if isinstance(out, tuple):
+            return tuple(views)
+        if isinstance(out, list):
+            return views
+        return views[0]
+
+
+def aliased(core, style):
+    if style == "fresh":
+        return core
+    ret = AliasedReturn(style)
+
+    def core2(xs, eff, scale):
+        return ret(core(xs, eff, scale))
+    return core2
+
+
 def contract(out, W):
     if isinstance(out, torch.Tensor):
         return (out.reshape(-1) * W[0]).sum()
@@ -179,6 +278,10 @@ def run_case(case):
     flog, plog, slog = [], [], []
     fcore = make_fcore(out_kind, m, flog)
     pcore = make_pcore(case["lpform"], case["lpshape"] == "1", plog)
+    # what xitorch calls: the same functions, possibly handing their result out as views of a reused internal buffer
+    # (the reference below always uses the plain cores)
+    fret, pret = case.get("fret", "fresh"), case.get("pret", "fresh")
+    fcore_x, pcore_x = aliased(fcore, fret), aliased(pcore, pret)
 
     fvals = [0.5 + torch.rand((m,), generator=g, dtype=DT), torch.randn((m,), generator=g, dtype=DT)]
     pvals = [0.5 * torch.randn((d,), generator=g, dtype=DT), 0.5 + torch.rand((d,), generator=g, dtype=DT)]
@@ -193,30 +296,33 @@ def run_case(case):
         leaf = torch.nn.Parameter(v, requires_grad=bool(case["freq"][0])) if needs_param else v.requires_grad_(bool(case["freq"][0]))
         fleaves[0] = leaf
         pleaves[0] = leaf
-    ffcn, fparams, finfo = gen.build_function(fcore, fleaves, fspec)
-    pfcn, pparams, pinfo = gen.build_function(pcore, pleaves, pspec)
+    ffcn, fparams, finfo = gen.build_function(fcore_x, fleaves, fspec)
+    pfcn, pparams, pinfo = gen.build_function(pcore_x, pleaves, pspec)
 
     x0 = torch.tensor(case["x0"][:d], dtype=DT)
     if case["x0form"] == "0d" or sampler == "dummy1d":
         x0 = x0[0].clone()
     elif case["x0form"] == "col":
         x0 = x0.reshape(d, 1)
+    x0_ref = x0.clone()          # the caller's x0 as it was; `x0` is the object handed to mcquad
 
     labels = ["sampler=" + sampler, "out=" + out_kind, "order=%d" % case["order"], "fkind=" + fspec["kind"], "pkind=" + pspec["kind"],
               "funused=%s" % fspec.get("unused"), "punused=%s" % pspec.get("unused"), "share=%s" % share, "x0=" + ("0d" if x0.dim() == 0 else case["x0form"]),
               "lp=" + case["lpform"] + "/" + case["lpshape"], "nb_vs_ns=" + ("lt" if nb < ns else "eq" if nb == ns else "gt"),
-              "nb0=%s" % (nb == 0), "bck=%s" % (case["bck"] is not None)]
+              "nb0=%s" % (nb == 0), "bck=%s" % (case["bck"] is not None), "fret=" + fret, "pret=" + pret]
 
     # ---------------- the call
     kwargs = {}
     step_pure = None
     if sampler == "mhcustom":
         step_pure = make_step(case["step"], d)
-        labels.append("step=" + case["step"]["kind"])
+        style = case["step"].get("style", "fresh")
+        labels += ["step=" + case["step"]["kind"], "stepstyle=" + style]
+        styled = StyledStep(step_pure, style)
 
         def custom_step(x, *args):
             slog.append((x.detach().clone(), args))
-            return step_pure(x)
+            return styled(x)
         kwargs = dict(method="mhcustom", nsamples=ns, nburnout=nb, custom_step=custom_step)
     elif sampler == "dummy1d":
         lb = -INF if case["lb"] is None else float(case["lb"])
@@ -234,23 +340,27 @@ def run_case(case):
     fpts, ppts, spts = list(flog), list(plog), list(slog)
 
     # ---------------- which samples were used
-    if len(fpts) == ns + 1 and same(fpts[0], x0):
+    if len(fpts) == ns + 1 and same(fpts[0], x0_ref):
         samples = fpts[1:]
     elif len(fpts) == ns:
         samples = fpts
     else:
         return violation("nsamples_count", "f was evaluated at %d points (first %s); nsamples=%d (+1 probe at x0) expected; nburnout=%d" % (
             len(fpts), fmt(fpts[0]) if fpts else None, ns, nb), labels)
+    # the caller's x0 is an input: unless the caller's own step advances its argument in place, it is bitwise unchanged
+    inplace_arg = sampler == "mhcustom" and case["step"].get("style", "fresh") == "inplace_arg"
+    if not inplace_arg and not same(x0, x0_ref):
+        return violation("x0_modified", "the x0 tensor handed to mcquad was %s and is %s after the call" % (fmt(x0_ref), fmt(x0)), labels)
 
     if sampler == "mhcustom":
-        chain = [x0]
+        chain = [x0_ref]
         for _ in range(nb + ns):
             chain.append(step_pure(chain[-1]))
         wins = [chain[nb:nb + ns], chain[nb + 1:nb + ns + 1]]
         if not any(all(same(a, b) for a, b in zip(samples, w)) for w in wins):
             off = [o for o in range(0, nb + 2) if all(same(a, b) for a, b in zip(samples, chain[o:o + ns]))]
             return violation("window", "samples %s are not chain[%d:%d] nor chain[%d:%d] of the custom-step chain from x0=%s (matching offsets: %s)" % (
-                [fmt(s) for s in samples[:4]], nb, nb + ns, nb + 1, nb + ns + 1, fmt(x0), off), labels)
+                [fmt(s) for s in samples[:4]], nb, nb + ns, nb + 1, nb + ns + 1, fmt(x0_ref), off), labels)
         # whichever of the two readings the implementation follows, it must follow it for every nburnout:
         # one more burn-in step moves the window by exactly one state
         offs = [o for o, w_ in zip((nb, nb + 1), wins) if all(same(a, b) for a, b in zip(samples, w_))]
@@ -258,10 +368,13 @@ def run_case(case):
             chain.append(step_pure(chain[-1]))
             n0 = len(flog)
             kw2 = dict(kwargs, nburnout=nb + 1)
+            x0_2 = x0_ref.clone()
             with torch.no_grad():
-                xt_call(mcquad, ffcn, pfcn, x0, fparams=fparams, pparams=pparams, _where="forward", **kw2)
+                xt_call(mcquad, ffcn, pfcn, x0_2, fparams=fparams, pparams=pparams, _where="forward", **kw2)
+            if not inplace_arg and not same(x0_2, x0_ref):
+                return violation("x0_modified", "the x0 tensor handed to mcquad was %s and is %s after the call (nburnout=%d)" % (fmt(x0_ref), fmt(x0_2), nb + 1), labels)
             pts2 = flog[n0:]
-            pts2 = pts2[1:] if len(pts2) == ns + 1 and same(pts2[0], x0) else pts2
+            pts2 = pts2[1:] if len(pts2) == ns + 1 and same(pts2[0], x0_ref) else pts2
             exp2 = chain[offs[0] + 1:offs[0] + 1 + ns]
             if len(pts2) != ns or not all(same(a, b) for a, b in zip(pts2, exp2)):
                 return violation("window_inconsistent", "with nburnout=%d the samples are chain[%d:%d], with nburnout=%d they are %s instead of chain[%d:%d]" % (
@@ -272,7 +385,7 @@ def run_case(case):
         w = torch.full((ns,), 1.0 / ns, dtype=DT)
         xmax = 0.0
     elif sampler == "mh":
-        prob, _ = mh_structure(x0, ppts, samples, nb, ns)
+        prob, _ = mh_structure(x0_ref, ppts, samples, nb, ns)
         if prob is not None:
             return violation(prob[0], prob[1] + " (nsamples=%d nburnout=%d)" % (ns, nb), labels)
         w = torch.full((ns,), 1.0 / ns, dtype=DT)
@@ -342,6 +455,8 @@ def run_case(case):
     if not loss.requires_grad:
         return violation("no_graph", "mcquad's result does not require grad although %d of its tensors do" % len(wrt), labels)
     got = xt_call(torch.autograd.grad, loss, wrt, create_graph=second, allow_unused=True, _where="backward")
+    if not inplace_arg and not same(x0, x0_ref):
+        return violation("x0_modified", "the x0 tensor handed to mcquad was %s and is %s after the backward pass" % (fmt(x0_ref), fmt(x0)), labels)
 
     # reference: self-normalised surrogate on the recorded samples
     num, den = 0.0, 0.0
@@ -412,6 +527,8 @@ def run_case(case):
                     return violation("no_second_graph", "create_graph=True produced first-order gradients without graph, reference second-order is non-zero", labels)
             return ok(labels, nontrivial=nontrivial)
         got2 = xt_call(torch.autograd.grad, sum(terms), wrt, allow_unused=True, _where="backward2")
+        if not inplace_arg and not same(x0, x0_ref):
+            return violation("x0_modified", "the x0 tensor handed to mcquad was %s and is %s after the second backward pass" % (fmt(x0_ref), fmt(x0)), labels)
         L_ref = sum((c * rk).sum() for c, rk in zip(C, ref))
         ref2 = grads_or_zero(L_ref, leaves_all)
         for k, (gk, x) in enumerate(zip(got2, wrt)):
@@ -445,30 +562,35 @@ def run_mhstat(case):
     step = case["rho"] * float(sig.min())
     x0 = mu + sig * torch.tensor(case["z0"][:d], dtype=DT)
     flog, plog = [], []
+    fret, pret = case.get("fret", "fresh"), case.get("pret", "fresh")
     labels = ["sampler=mh", "d=%d" % d, "rho=%s" % ("lo" if case["rho"] < 1.5 else "mid" if case["rho"] < 2.8 else "hi"),
-              "nb0=%s" % (nb == 0), "method=%s" % ("mh" if case["method_given"] else "None")]
+              "nb0=%s" % (nb == 0), "method=%s" % ("mh" if case["method_given"] else "None"), "fret=" + fret, "pret=" + pret]
+    f_out, p_out = AliasedReturn(fret), AliasedReturn(pret)
+    x0_ref = x0.clone()
 
     def f(x, m_, s_):
         flog.append(x.detach().clone())
         z = (x - m_) / s_
-        return x * 1.0, z * z, torch.ones(1, dtype=DT) * 2.5
+        return f_out((x * 1.0, z * z, torch.ones(1, dtype=DT) * 2.5))
 
     def logp(x, m_, s_):
         z = (x - m_) / s_
         val = -0.5 * (z * z).sum()
         plog.append((x.detach().clone(), float(val)))
-        return val
+        return p_out(val)
     kwargs = dict(nsamples=N, nburnout=nb, step_size=step)
     if case["method_given"]:
         kwargs["method"] = "mh"
     res = xt_call(mcquad, f, logp, x0, fparams=(mu, sig), pparams=(mu, sig), _where="forward", **kwargs)
-    if len(flog) == N + 1 and same(flog[0], x0):
+    if len(flog) == N + 1 and same(flog[0], x0_ref):
         samples = flog[1:]
     elif len(flog) == N:
         samples = flog
     else:
         return violation("nsamples_count", "f was evaluated at %d points; nsamples=%d (+1 probe) expected" % (len(flog), N), labels)
-    prob, steps = mh_structure(x0, plog, samples, nb, N)
+    if not same(x0, x0_ref):
+        return violation("x0_modified", "the x0 tensor handed to mcquad was %s and is %s after the call" % (fmt(x0_ref), fmt(x0)), labels)
+    prob, steps = mh_structure(x0_ref, plog, samples, nb, N)
     if prob is not None:
         return violation(prob[0], prob[1] + " (nsamples=%d nburnout=%d)" % (N, nb), labels)
     X = torch.stack(samples)
@@ -621,12 +743,17 @@ def case_st(draw, tier="quick"):
             "preq": [draw(st.sampled_from([True, True, False])), draw(st.sampled_from([True, True, False]))],
             "order": draw(st.sampled_from([1, 2])),
             "bck": draw(st.sampled_from([None, None, {"nsamples": 3}, {"nsamples": 2, "nburnout": 1}])),
+            "fret": draw(st.sampled_from(["fresh", "fresh"] + list(RET_STYLES[1:]))),
+            "pret": draw(st.sampled_from(["fresh", "fresh"] + list(RET_STYLES[1:]))),
             "seed": draw(st.integers(0, 2 ** 31 - 1))}
+    if sampler == "mh" and MH_NEEDS_FRESH_LOGP:
+        case["pret"] = "fresh"
     if AVOID_DERIVED_PARAMS:
         case["fspec"], case["pspec"] = independent_spec(case["fspec"]), independent_spec(case["pspec"])
     if sampler == "mhcustom":
         kind = draw(st.sampled_from(["shift", "shift", "neg", "affine", "roll"]))
-        case["step"] = {"kind": kind, "delta": [draw(FL) for _ in range(d)]}
+        case["step"] = {"kind": kind, "delta": [draw(FL) for _ in range(d)],
+                        "style": draw(st.sampled_from(["fresh", "fresh", "fresh"] + list(STEP_STYLES[1:])))}
     elif sampler == "dummy1d":
         b = draw(st.sampled_from(["ii", "ii", "fi", "if", "ff"]))
         lo, hi = sorted([draw(FL), draw(FL)])
@@ -651,6 +778,8 @@ def mhstat_st(draw, tier="quick"):
             "z0": [draw(st.floats(-1, 1, allow_nan=False, width=32)) for _ in range(d)],
             "rho": draw(st.integers(4, 20)) / 5.0,
             "method_given": draw(st.booleans()),
+            "fret": draw(st.sampled_from(["fresh", "fresh"] + list(RET_STYLES[1:]))),
+            "pret": "fresh" if MH_NEEDS_FRESH_LOGP else draw(st.sampled_from(["fresh", "fresh"] + list(RET_STYLES[1:]))),
             "seed": draw(st.integers(0, 2 ** 31 - 1))}
 
 
@@ -706,10 +835,15 @@ def run_sameobj(case):
     ns, nb = case["nsamples"], case["nburnout"]
     c, sh = case["contr"], case["shift"]
 
+    style = case.get("style", "fresh")
+    styled = StyledStep(lambda x: c * x + sh, style)
+
     def custom_step(x, *args):
-        return c * x + sh
+        return styled(x)
     x0 = torch.tensor(case["x0"][:m], dtype=DT)
-    labels = ["task=sameobj", "kind=" + kind, "out=" + case["out"], "order=%d" % case["order"], "req=%s" % "".join("1" if r else "0" for r in req)]
+    x0_ref = x0.clone()
+    labels = ["task=sameobj", "kind=" + kind, "out=" + case["out"], "order=%d" % case["order"], "req=%s" % "".join("1" if r else "0" for r in req),
+              "stepstyle=" + style]
     wrt = [t for t, r in zip((a, w, mu), req) if r]
     names = [n for n, r in zip(("a", "w", "mu"), req) if r]
     if not wrt:
@@ -719,6 +853,14 @@ def run_sameobj(case):
     samples = pts[1:] if len(pts) == ns + 1 else pts
     if len(samples) != ns:
         return violation("nsamples_count", "f was evaluated at %d points, nsamples=%d" % (len(pts), ns), labels)
+    chain = [x0_ref]
+    for _ in range(nb + ns):
+        chain.append(c * chain[-1] + sh)
+    if not any(all(same(p_, q_) for p_, q_ in zip(samples, chain[o:o + ns])) for o in (nb, nb + 1)):
+        return violation("window", "samples %s are not chain[%d:%d] nor chain[%d:%d] of the custom-step chain from x0=%s (step style %s)" % (
+            [fmt(s_) for s_ in samples[:4]], nb, nb + ns, nb + 1, nb + ns + 1, fmt(x0_ref), style), labels)
+    if style != "inplace_arg" and not same(x0, x0_ref):
+        return violation("x0_modified", "the x0 tensor handed to mcquad was %s and is %s after the call" % (fmt(x0_ref), fmt(x0)), labels)
     fs = torch.stack([fval(x, a, w).reshape(-1) for x in samples])           # (ns, k)
     lps = torch.stack([lpval(x, mu, w) for x in samples])                     # (ns,)
     r = torch.exp(lps - lps.detach())
@@ -765,6 +907,7 @@ def sameobj_st(draw, tier="quick"):
     return {"m": m, "kind": draw(st.sampled_from(["em", "nn"])), "out": draw(st.sampled_from(["scalar", "vector"])), "req": req,
             "nsamples": draw(st.integers(1, 6)), "nburnout": draw(st.integers(0, 4)), "contr": draw(st.sampled_from([0.5, 0.8, -0.6])),
             "shift": draw(st.sampled_from([0.3, -0.2, 1.0])), "x0": [draw(FL) for _ in range(3)], "order": draw(st.sampled_from([1, 1, 2])),
+            "style": draw(st.sampled_from(["fresh", "fresh"] + list(STEP_STYLES[1:]))),
             "seed": draw(st.integers(0, 2 ** 31 - 1))}
 
 
